@@ -206,6 +206,29 @@ impl<'tcx> Ex<'tcx> {
                     Err(_) => J::O(vec![("bytes", J::A(bytes.iter().map(|b| J::I(*b as i128)).collect()))]),
                 }
             }
+            ConstValue::Scalar(mir::interpret::Scalar::Ptr(ptr, _)) => {
+                let (prov, _off) = ptr.into_raw_parts();
+                let aid = prov.alloc_id();
+                match tcx.global_alloc(aid) {
+                    mir::interpret::GlobalAlloc::Static(sdid) => {
+                        let mut v = vec![("static", J::S(tcx.def_path_str(sdid)))];
+                        if let Ok(alloc) = tcx.eval_static_initializer(sdid) {
+                            let a = alloc.inner();
+                            let n = a.len();
+                            if n <= 16 && a.provenance().ptrs().is_empty() {
+                                let bytes = a.inspect_with_uninit_and_ptr_outside_interpreter(0..n);
+                                let mut x: u128 = 0;
+                                for (i, b) in bytes.iter().enumerate() {
+                                    x |= (*b as u128) << (8 * i);
+                                }
+                                v.push(("val", J::I(x as i128)));
+                            }
+                        }
+                        J::O(v)
+                    }
+                    _ => J::Null,
+                }
+            }
             ConstValue::ZeroSized => J::S("zst".into()),
             _ => J::Null,
         }
